@@ -1561,3 +1561,11 @@ M('C01', 'lincomb converts its scalars to field elements', 'odl/set/space.py',
   "            self._lincomb(a, x1, b, x2, out)\n\n        return out",
   "            self._lincomb(self.field.element(a), x1, self.field.element(b), x2, out)\n\n        return out",
   'C01-R4t')
+M('C19', 'parallel beam radius from the two extremal corners only', 'odl/tomo/geometry/parallel.py',
+  "    corners = space.domain.corners()[:, :2]\n    rho = np.max(np.linalg.norm(corners, axis=1))",
+  "    rho = max(np.linalg.norm(space.domain.min_pt[:2]),\n              np.linalg.norm(space.domain.max_pt[:2]))",
+  'parallel_beam_geometry')
+M('C16', 'offset clipped at zero from the smaller space', 'odl/discr/discr_ops.py',
+  "    diff_l = np.abs(ran.grid.min() - dom.grid.min())",
+  "    small, large = (dom, ran) if dom.size <= ran.size else (ran, dom)\n    diff_l = np.maximum(small.grid.min() - large.grid.min(), 0)",
+  'C16-R4b')
